@@ -15,7 +15,9 @@ from concurrent.futures import ThreadPoolExecutor
 
 from . import build
 
-HOSTILE = ["-1", "0", "2147483648", "1e999", "nan", "abc", "", "4294967296", "1e-400", "2147483647", "999999", "7", "1e308", "4e9", "1.5"]
+HOSTILE = ["-1", "0", "2147483648", "1e999", "nan", "abc", "", "4294967296", "1e-400", "2147483647", "999999", "7", "1e308", "4e9", "1.5",
+           # indices whose product with a small stride wraps a 32-bit counter: ceil(2^32/3) and its neighbour (3 coordinates per point)
+           "1431655765", "1431655766"]
 
 VTK_TETRA = """# vtk DataFile Version 4.2
 vtk output
